@@ -78,6 +78,9 @@ func GetObject(rootGoitPath string, hash sha.SHA1) (*Object, error) {
 	}
 
 	objHash := checkSum.Sum(nil)
+	if !hash.Compare(objHash) {
+		return nil, ErrInvalidObject
+	}
 
 	object := &Object{
 		Type: objType,
